@@ -49,7 +49,11 @@ theorem attemptDeletion_heap (r : Nat) (s : State) : HeapStatic s.heap (attemptD
   cases htd : (s.obj r).toDelete with
   | some l0 =>
     simp only [htd]
-    exact heapStatic_setObj s r (s.obj r) ⟨rfl, rfl, rfl⟩
+    by_cases hc : (uniqueLabels (s.obj r).labels).contains l0 = true
+    · simp only [hc, if_true]
+      exact heapStatic_setObj s r (s.obj r) ⟨rfl, rfl, rfl⟩
+    · simp only [hc, Bool.false_eq_true, if_false]
+      exact HeapStatic.refl _
   | none =>
     simp only [htd]
     by_cases hu : (uniqueLabels (s.obj r).labels).isEmpty = true
